@@ -52,7 +52,21 @@ def cases(draw):
             bad = draw(st.one_of(keys, st.sampled_from(["0", "1", ""])))
         tail = draw(st.lists(keys, max_size=2))
         neg.append(list(p) + [bad] + tail)
-    return {"doc": doc, "also": also, "negative": neg, "draft": draw(st.sampled_from([4, 6, 7, 3]))}
+    ndecoy = 0
+    if draw(st.booleans()):
+        # members that merely LOOK like identifiers naming a pointer: {"id": "#/a/0"} is data, the pointer still
+        # means the location it spells
+        holders = [p for p, n in locations(doc) if isinstance(n, dict)]
+        for _ in range(draw(st.integers(1, 2))):
+            if not holders:
+                break
+            h = walk_tokens(doc, draw(st.sampled_from(holders)))
+            t = draw(st.sampled_from(locs + [tuple(n) for n in neg]))
+            kw = draw(st.sampled_from(["id", "$id"]))
+            if kw not in h:
+                h[kw] = "#" + optr.encode(list(t), also)
+                ndecoy += 1
+    return {"doc": doc, "also": also, "negative": neg, "draft": draw(st.sampled_from([4, 6, 7, 3])), "decoys": ndecoy}
 
 
 class Marker(object):
@@ -80,7 +94,7 @@ class C14(Prop):
             "escape-relevant character, an array index or an empty token, or any negative pointer.")
     ASSUMPTIONS = ["O-PTR (pbt/oracle/pointer.py) implements RFC 6901 section 4 and the fragment encoding of section 6"]
     GATES = {"pos:escape-char": 500, "pos:array-index": 500, "pos:empty-token": 100, "neg:bad-index": 200,
-             "neg:missing-key": 200, "neg:scalar-child": 200, "e2e": 500}
+             "neg:missing-key": 200, "neg:scalar-child": 200, "e2e": 500, "identifier-lookalikes": 500}
     MIN_NONTRIVIAL = 500
 
     def strategy(self, tier):
@@ -94,6 +108,8 @@ class C14(Prop):
             res.excluded = "scalar-document"
             return res
         also = set(case.get("also", []))
+        if case.get("decoys"):
+            res.labels.append("identifier-lookalikes")
         RefResolver = impl.validators.RefResolver
         resolver = RefResolver("", doc)
         for tokens, node in locations(doc):
